@@ -1536,10 +1536,23 @@ impl<'r> Lowerer<'r> {
                 })
             }
             ValueKind::Constant => {
-                if !fields.is_empty() {
-                    panic!("Getting fields of constants not supported yet")
+                let value = Value::Constant(*name, root_ty);
+                if fields.is_empty() {
+                    return value;
                 }
-                Value::Constant(*name, root_ty)
+
+                // Read the constant into a temporary and project the
+                // fields out of that, like an access on any other
+                // expression.
+                let var = self.assign_to_var(value, root_ty);
+                let projection =
+                    fields.iter().map(|f| Projection::Field(f.0)).collect();
+
+                Value::Clone(Place {
+                    var,
+                    root_ty,
+                    projection,
+                })
             }
             ValueKind::Context(x) => Value::Context(*x),
         }
